@@ -30,7 +30,7 @@ _o += [
          'EPV.C15.displacement_wave_equation_ahead', 'EPV.C15.cL_sq', 'EPV.C15.cL_sq_lame'],
         ['BlakeFields'], o_c15.wave, tie=o_c15.tie_fields),
     obl('C15.blake.wall_stress', FLD, ['EPV.C15.wall_stress'], ['BlakeFields'], o_c15.wall, tie=o_c15.tie_fields),
-    obl('C15.blake.causality', FLD, ['EPV.C15.vanishes_ahead_of_front', 'EPV.C15.density_ahead_of_front', 'EPV.C15.quiet_leaf'],
+    obl('C15.blake.causality', FLD, ['EPV.C15.vanishes_ahead_of_front', 'EPV.C15.density_ahead_of_front'],
         ['BlakeFields'], o_c15.causal, tie=o_c15.tie_fields),
 ]
 
